@@ -1,5 +1,6 @@
 import LospanVerif.Model.Pipeline
 import LospanVerif.Proofs.Counters
+import LospanVerif.Proofs.Circ
 /-
   C07 — a downlink frame counter is never reused within a session.
 
@@ -12,7 +13,7 @@ import LospanVerif.Proofs.Counters
 -/
 namespace LospanVerif
 namespace Props.C07
-open Model.Pipeline Model.Phy Proofs.Counters
+open Model.Pipeline Model.Phy Proofs.Counters Proofs.Circ
 
 def isDataDown (p : PHY) : Prop := p.mhdr.mtype = mtUnconfirmedDataDown ∨ p.mhdr.mtype = mtConfirmedDataDown
 
@@ -45,6 +46,31 @@ theorem C07_next_is_fresh (E D : Spec.Rfc4493.BlockFn) (cfg : Config) (db : DB) 
   have := (cinv_run E D cfg _ evs (CInv.init db)).dnB e f' hm t ht hte
   omega
 
+/-- **All schedules, at the level of what leaves the server.** `emittedDn` records (device, FCnt)
+    of every data downlink handed to the gateway. For a device whose counter epoch is running (no
+    join and no 16-bit wrap so far: not in `resetsDn`), no (device, FCnt) is emitted twice, and
+    every emitted one was handed out by `NextFCntDn` — for every event list: all interleavings of
+    all threads, injected faults, crashes. -/
+theorem C07_emitted_counter_unique (E D : Spec.Rfc4493.BlockFn) (cfg : Config) (db : DB) (evs : List Event) (x : Bytes × Nat)
+    (hx : x.1 ∉ (run E D cfg (Sys.init db) evs).resetsDn) :
+    (run E D cfg (Sys.init db) evs).emittedDn.count x ≤ 1 ∧
+    (x ∈ (run E D cfg (Sys.init db) evs).emittedDn → x ∈ (run E D cfg (Sys.init db) evs).issuedDn) := by
+  obtain ⟨h1, h2⟩ := (kinv_run E D cfg _ evs (kinv_init db)).k x hx
+  simp only [circCount] at h1 h2
+  refine ⟨by omega, fun hm => h2 ?_⟩
+  have : 0 < (run E D cfg (Sys.init db) evs).emittedDn.count x := List.count_pos_iff.mpr hm
+  omega
+
+/-- The history entry and the frame leave together: the last encoder step appends the frame to
+    `emitted` and (device, the FCnt the frame was encoded with) to `emittedDn`. -/
+theorem C07_handover_records (E D : Spec.Rfc4493.BlockFn) (sys : Sys) (p : PHY) (c : Ctx) (bytes : Bytes) (hd : isDataDown p) (f : Bool) :
+    (stepEncoder E D sys 2 p c bytes f).1.emittedDn = sys.emittedDn ++ [(c.device.eui, p.mac.fhdr.fcnt)] := by
+  have h1 := not_ja p hd
+  have hd' : p.mhdr.mtype = mtUnconfirmedDataDown ∨ p.mhdr.mtype = mtConfirmedDataDown := hd
+  unfold stepEncoder
+  rw [if_neg h1, if_pos hd']
+  rfl
+
 /-- Step 0 of the encoder: the frame is encoded with exactly the counter the store handed out, the
     store already holds counter+1, and no frame has left yet. -/
 theorem C07_encodes_with_issued_counter (E D : Spec.Rfc4493.BlockFn) (sys : Sys) (p : PHY) (c : Ctx) (hd : isDataDown p)
@@ -52,7 +78,8 @@ theorem C07_encodes_with_issued_counter (E D : Spec.Rfc4493.BlockFn) (sys : Sys)
     (henc : encodeMessage E c.device.nwkSKey c.device.appSKey
       { p with mac := { p.mac with fhdr := { p.mac.fhdr with fcnt := f } } } = .ok b) :
     stepEncoder E D sys 0 p c [] false =
-      ({ sys with db := db', issuedDn := noteCounter sys.issuedDn c.device.eui f },
+      ({ sys with db := db', issuedDn := noteCounter sys.issuedDn c.device.eui f,
+                  resetsDn := if f + 1 < 65536 then sys.resetsDn else c.device.eui :: sys.resetsDn },
        [.encoder 1 { p with mac := { p.mac with fhdr := { p.mac.fhdr with fcnt := f } } }
           { c with device := { c.device with fcntDn := (f + 1) % 65536 } } b]) := by
   have h1 := not_ja p hd
